@@ -38,11 +38,16 @@ func (c *Conn) handleIdle(dec *imapwire.Decoder) error {
 	c.setReadTimeout(idleReadTimeout)
 	line, isPrefix, err := c.br.ReadLine()
 	close(stop)
+	tooLong := isPrefix
+	for isPrefix && err == nil {
+		// drop the rest of the line, it's not a command
+		_, isPrefix, err = c.br.ReadLine()
+	}
 	if err == io.EOF {
 		return nil
 	} else if err != nil {
 		return err
-	} else if isPrefix || string(line) != "DONE" {
+	} else if tooLong || string(line) != "DONE" {
 		return newClientBugError("Syntax error: expected DONE to end IDLE command")
 	}
 
